@@ -470,9 +470,9 @@ theorem fields_reconstruct (d line : Bytes) (hd : d ≠ []) :
     have h := slice_eq_interleave d line hd hline 0 ((fillWithFieldsLocations [] line d).length - 1)
       (by omega) (by omega)
     rw [hw.head_start, hw.last_stop, slice_zero_length] at h
-    rw [h, List.extract_eq_take_drop]
     have e : (fillWithFieldsLocations [] line d).length - 1 + 1 - 0 = (splitFields d line).length := by
       rw [← fields_length d line hd hline]; omega
-    rw [e]; simp
+    rw [List.extract_eq_take_drop, e] at h
+    simpa using h.symm
 
 end Tuc
